@@ -229,6 +229,14 @@ def evaluate(text: str):
         return res
     if not cstread.error_free(out):
         res["fails"]["output-parses"] = out
+        # C03 can still be asked: do the comment tokens of the (unparsable) output carry the input's comment texts?
+        try:
+            ci = sorted(cnorm(x[1]) for x in norm_interleaved(sequences(text)[1]) if x[0] == "c")
+            co = sorted(cnorm(x[1]) for x in norm_interleaved(sequences(out)[1]) if x[0] == "c")
+            if ci != co:
+                res["fails"]["comments"] = "comment-text"
+        except Exception:  # noqa: BLE001
+            pass
         return res
     out_cmp = cstread.strip_formals_trailing_commas(out)
     code_in, inter_in = sequences(text)
